@@ -21,7 +21,7 @@ RULE = (
   "integration state after the history (hash), transition = one API call; every trace validated against a fresh-Data twin, a "
   "no-call twin and mj_resetDataKeyframe"
 )
-BOUNDS = {"quick": "depth<=1 (4 histories), 69 key arguments + 3 malformed, K=2", "thorough": "depth<=2 (13 histories), same keys, K=3"}
+BOUNDS = {"quick": "depth<=1 (4 histories), 69 key arguments + 3 malformed + 4 int64 arrays (values beyond 32 bits), K=2", "thorough": "depth<=2 (13 histories), same keys, K=3"}
 ASSUMPTIONS = ["bit identity vs fresh Data + keyframe fields; f32 vs mj_resetDataKeyframe", "model has 3 keyframes with distinct time/qpos/qvel/act/ctrl/mpos/mquat"]
 BUDGET = {"quick": 500, "thorough": 3000}
 NW = 3
@@ -59,7 +59,15 @@ MODELS = {"full": XML, "mocap4": XML_MOCAP}  # mocap4: more mocap bodies than ma
 OPS = {"step_a": c13.OPS["step_a"], "dirty_inputs": c13.OPS["dirty_inputs"], "kick": c13.OPS["kick"]}
 ALPHABET = list(OPS)
 KEY_ARRAYS = [list(k) for k in itertools.product([-1, 0, 2, 3], repeat=NW)]
-KEYS = [("scalar", k) for k in (-1, 0, 1, 2, 3)] + [("array", k) for k in KEY_ARRAYS] + [("bad_shape", None), ("bad_dtype", None), ("bad_type", None)]
+# 64-bit key arrays (numpy's default integer): either rejected without touching anything, or treated like the same values
+# in an int32 array -- an index such as 2**32 (low 32 bits = 0) is out of range and must leave its world untouched
+KEYS64 = [[0, 2, 1], [2**32, 1, 2**32 + 1], [-(2**32) + 2, 2**31, 0], [2**40 + 2, -1, 2**32 + 2]]
+KEYS = (
+  [("scalar", k) for k in (-1, 0, 1, 2, 3)]
+  + [("array", k) for k in KEY_ARRAYS]
+  + [("bad_shape", None), ("bad_dtype", None), ("bad_type", None)]
+  + [("int64", k) for k in KEYS64]
+)
 
 
 def scenarios(tier, seed):
@@ -126,7 +134,17 @@ def execute(scn):
     c.bits(tag + "state untouched", hist.get_integration_state(mjm, m, d), before, vkey="rejected_call_modified_state")
     return c.result(nontrivial=True, key=util.sha(scn), counts=counts)
 
-  if kind == "scalar":
+  if kind == "int64":
+    try:
+      mjw.reset_data_keyframe(m, d, wp.array(np.array(key, np.int64), dtype=wp.int64))
+      err = None
+    except Exception as e:  # any rejection is acceptable as long as nothing was touched
+      err = e
+    if err is not None:
+      c.bits(tag + "state untouched", hist.get_integration_state(mjm, m, d), before, vkey="rejected_call_modified_state")
+      return c.result(nontrivial=True, key=util.sha(scn), counts=counts, outcome="int64_rejected")
+    keys = [k if 0 <= k < mjm.nkey else -1 for k in key]
+  elif kind == "scalar":
     err = call(key)
     valid = 0 <= key < mjm.nkey
     if not valid:
